@@ -89,11 +89,15 @@ def rand_eval_spec(rng):
     if rng.random() < 0.5:
         dec = [rng.choice(["IOU", "DSC"] if "DSC" in metrics else ["IOU"]), {"q": list(rng.choice([(1, 2), (7, 10), (666, 1000)]))}]
     hnd = rand_handler(rng, metrics) if rng.random() < 0.7 else None
+    if hnd is not None and rng.random() < 0.4:
+        # a handler that defines only (a superset of) the evaluated metrics
+        keep = set(metrics) | set(rng.sample(["DSC", "IOU", "ASSD", "RVD", "clDSC"], rng.randint(0, 2)))
+        hnd = {"table": [e for e in hnd["table"] if e[0] in keep], "empty_list_std": hnd["empty_list_std"]}
     groups = None
     if rng.random() < 0.5:
         groups = [{"name": rng.choice(["Organ", "my-grp", "a b"]), "labels": [1], "merge": False, "single": rng.random() < 0.4},
                   {"name": "lesions", "labels": [2, 3], "merge": rng.random() < 0.4, "single": False}]
-    gm = rng.sample(["DSC", "IOU", "RVD"], rng.randint(0, 3))
+    gm = [m for m in rng.sample(["DSC", "IOU", "RVD"], rng.randint(0, 3)) if hnd is None or m in [e[0] for e in hnd["table"]]]
     cfg = E.mk_cfg(it, metrics, matcher=mk, decision=dec, handler=hnd, backend=rng.choice([None, "cc3d", "scipy"]))
     flags = {"save_group_times": rng.random() < 0.3, "log_times": rng.random() < 0.3, "verbose": rng.random() < 0.2}
     return cfg, groups, gm, flags
@@ -224,6 +228,25 @@ def shipped(ctx):
             ctx.violation(f"C19 violated: shipped configuration {f} does not load: {type(e).__name__}: {e}", inp, key={"kind": "shipped"})
             continue
         roundtrip_obj(ctx, obj, cls, inp, f"shipped configuration {f}", model_classes)
+    # by-name loading is a function of the file: a second load after the first object was modified (or used) gives
+    # the same settings as the file
+    from panoptica.utils.filepath import config_by_name
+    for name in ("panoptica_evaluator_unmatched_instance", "panoptica_evaluator_BRATS"):
+        inp = {"shipped_by_name": name}
+        ctx.case(inp, True)
+        ctx.count("by_name_histories")
+        try:
+            with quiet():
+                first = impl.Panoptica_Evaluator.load_from_config_name(name)
+                ref_settings = settings(impl.Panoptica_Evaluator.load_from_config(config_by_name(name)))
+                first.set_log_group_times(True)
+                first._set_instance_matcher(impl.NaiveThresholdMatching(matching_threshold=0.123))
+                second = impl.Panoptica_Evaluator.load_from_config_name(name)
+            if settings(second) != ref_settings:
+                ctx.violation(f"C19 violated: loading the shipped configuration {name} by name a second time does not reproduce the settings of the YAML file", inp,
+                              key={"kind": "by-name-history"})
+        except Exception as e:
+            ctx.violation(f"C19 violated: by-name loading of {name} raised {type(e).__name__}: {e}", inp, key={"kind": "shipped"})
     # enums by name
     for e in list(impl.Metric) + list(impl.InputType) + list(impl.CCABackend) + list(impl.EdgeCaseResult):
         d = VERIF / ".work" / f"c19_{os.getpid()}"
